@@ -70,8 +70,9 @@ Theorem c03_drop_mid_identity : forall c,
     drop_mid c = c.
 Proof. exact drop_mid_identity. Qed.
 
-(* ---- the whole optimiser on a classified plan: same rows, up to the plan's order class, in both
-   engines, provided the reorder pass is a no-op on it (else: known finding C02-reorder) ---- *)
+(* ---- the whole optimiser on a classified plan (incl. the class-D rules: GroupByKey after a
+   hash step, lifted combines / order-insensitive operators on its groups; lifting fires there
+   too): same rows, up to the plan's order class, in both engines, provided the reorder pass is a no-op on it (else: known finding C02-reorder) ---- *)
 (* (lift_typed: a lifted combine that directly follows a GroupByKey was built for that GroupByKey's
    row type - forced by rustc for every chain the typed builders can produce) *)
 Definition lift_typed (chain : list node) : Prop :=
